@@ -20,7 +20,8 @@ import (
 
 const verifAPIKey = "LUFRPT1+ab/cd=="
 
-var verifPanSpoc = `<config><devices><entry name="localhost.localdomain"><vsys><entry name="vsys1">
+func verifPanSpocVsys(name string) string {
+	return `<entry name="` + name + `">
 <rulebase><security><rules>
 <entry name="r1">
 <action>allow</action>
@@ -36,7 +37,11 @@ var verifPanSpoc = `<config><devices><entry name="localhost.localdomain"><vsys><
 <service>
 <entry name="tcp 80"><protocol><tcp><port>80</port></tcp></protocol></entry>
 </service>
-</entry></vsys></entry></devices></config>
+</entry>`
+}
+
+// two vsys with pending changes: the change commands of one run span both
+var verifPanSpoc = `<config><devices><entry name="localhost.localdomain"><vsys>` + verifPanSpocVsys("vsys1") + verifPanSpocVsys("vsys2") + `</vsys></entry></devices></config>
 `
 
 type verifPanSim struct {
@@ -89,6 +94,7 @@ func (s *verifPanSim) respond(method, uri, body string) (int, string, string, st
 	case strings.Contains(uri, "action=get"):
 		return 200, `<response status="success"><result><devices><entry name="localhost.localdomain"><deviceconfig><system><hostname>` +
 			s.hostname + `</hostname></system></deviceconfig><vsys><entry name="vsys1"><display-name>` + s.displayName +
+			`</display-name><rulebase><security><rules></rules></security></rulebase></entry><entry name="vsys2"><display-name>` + s.displayName +
 			`</display-name><rulebase><security><rules></rules></security></rulebase></entry></vsys></entry></devices></result></response>`, "", ""
 	case strings.Contains(uri, "type=commit"):
 		return 200, `<response status="success" code="19"><result><job>6</job></result></response>`, "", ""
@@ -186,7 +192,7 @@ func VerifDialoguePAN() {
 	isCompare := vf.Param("mode", "approve") == "compare"
 	vf.Assumption("PAN-OS XML API simulator: answers per request kind (keygen, HA state, candidate config, config commands, commit, job status); faults: HTTP 500, malformed XML, status=error, transport error (connection closed: *url.Error embeds the request URL), commit job FAIL after 0..1 PEND")
 	sim := &verifPanSim{hostname: "router", displayName: "vsys1 netspoc", faultPos: -1}
-	sim.faultPos = vf.FixInt(vf.Int("faultPos", -1, 9))
+	sim.faultPos = vf.FixInt(vf.Int("faultPos", -1, 11))
 	sim.faultKind = vf.FixInt(vf.Int("faultKind", 1, 5))
 	sim.pend = vf.FixInt(vf.Int("pendAnswers", 0, 1))
 	r := verifRunPan(sim, isCompare)
@@ -248,7 +254,7 @@ func VerifDialoguePAN() {
 	}
 	if r.rc == 0 {
 		vf.Cover("approve succeeded")
-		vf.Assert(nChange >= 2 && nCommit == 1, "C09: PAN-OS: exit status 0 although changes or commit are missing")
+		vf.Assert(nChange >= 4 && nCommit == 1, "C09: PAN-OS: exit status 0 although changes or commit are missing")
 		vf.Assert(!effective, "C09: PAN-OS: exit status 0 although a device-side failure occurred")
 	}
 }
@@ -280,6 +286,6 @@ func VerifUnmanagedPAN() {
 		vf.Assert(strings.Contains(r.stderr, "ERROR>>>"), "C06: PAN-OS: no diagnostic for a wrong, unmanaged or passive device")
 	} else {
 		vf.Cover("managed device")
-		vf.Assert(r.rc == 0 && nChange >= 2 && nCommit == 1, "C06: PAN-OS: approve of a managed active device failed")
+		vf.Assert(r.rc == 0 && nChange >= 4 && nCommit == 1, "C06: PAN-OS: approve of a managed active device failed")
 	}
 }
